@@ -25,8 +25,8 @@ pub struct Case {
 
 fn strategy(tier: Tier) -> BoxedStrategy<Case> {
     let max_writes = tier.pick(40usize, 80);
-    (any::<bool>(), any::<bool>(), prop::bool::weighted(0.6), prop::bool::weighted(0.2))
-        .prop_flat_map(move |(v6, probing, nagle, window_limited)| {
+    (any::<bool>(), any::<bool>(), prop::bool::weighted(0.6), prop::bool::weighted(0.2), prop::bool::weighted(0.35))
+        .prop_flat_map(move |(v6, probing, nagle, window_limited, holes)| {
             let link = if probing { gens::link_mtu(v6) } else if v6 { prop_oneof![Just(1280u16), 200u16..1280].boxed() } else { prop_oneof![Just(576u16), 100u16..576].boxed() };
             (link, gens::rnd_stream(), any::<bool>(), any::<u16>(), any::<u16>(), any::<u64>())
                 .prop_flat_map(move |(link_mtu, rnd, incoming, peer_isn, conn_id, key)| {
@@ -40,6 +40,11 @@ fn strategy(tier: Tier) -> BoxedStrategy<Case> {
                         3 => prop_oneof![Just(1u32), Just(3), Just(10), Just(39), Just(45), Just(120)].prop_map(Step::Adv),
                         4 => wnd2.clone().prop_map(|wnd| Step::Peer(PeerOp::Ack { back: 0, wnd, sack: None })),
                         2 => wnd2.clone().prop_map(|wnd| Step::Peer(PeerOp::AckAdv { adv: 1, wnd, sack: None })),
+                        // a packet went missing and the peer says which later ones it holds (honest selective ack)
+                        // (in a third of the cases)
+                        (holes as u32) => (0u16..4, 0u8..2, 1u8..3, wnd2.clone()).prop_map(|(adv, skip, count, wnd)| Step::Peer(PeerOp::SackHeld { adv, skip, count, wnd })),
+                        // … or simply repeats an older acknowledgement
+                        (holes as u32) => (1i16..4, wnd2.clone()).prop_map(|(back, wnd)| Step::Peer(PeerOp::Ack { back, wnd, sack: None })),
                     ];
                     (prop::collection::vec(step, 1..max_writes), wnd)
                         .prop_map(move |(mut steps, peer_wnd)| {
@@ -78,6 +83,9 @@ pub fn oracle(case: &Case, res: &SpResult) -> (Option<(String, String)>, Vec<&'s
     let written_by_ord = |ord: u64| -> u64 { writes.iter().filter(|(o, _, _)| *o < ord).map(|(_, _, n)| *n as u64).sum() };
     let mut last_rx_t: Option<u64> = None;
     let mut handshake_done = false;
+    // first instant at which the acknowledgements amount to evidence of loss (duplicates / selective acks: the
+    // congestion window may shrink from then on, the slow-start allowance below no longer holds)
+    let mut loss_evidence_t: Option<u64> = None;
     let mut first_tx_bytes: u64 = 0;
     let mut any_retx = false;
     let mut small_while_outstanding = false;
@@ -92,6 +100,7 @@ pub fn oracle(case: &Case, res: &SpResult) -> (Option<(String, String)>, Vec<&'s
                 let unacked_before = obs.unacked_count(&obs.st);
                 obs.on_rx(r.t_us, p);
                 last_rx_t = Some(r.t_us);
+                if obs.st.poss_loss_event && loss_evidence_t.is_none() { loss_evidence_t = Some(r.t_us); labels.insert("loss_evidence_seen"); }
                 if unacked_before > 0 && obs.unacked_count(&obs.st) == 0 && p.wnd > 0 {
                     drained_events.push((r.t_us, r.idx, r.ord));
                 }
@@ -174,10 +183,12 @@ pub fn oracle(case: &Case, res: &SpResult) -> (Option<(String, String)>, Vec<&'s
         // at every instant at which a peer packet is delivered (an event the connection processes)
         let rx_times: BTreeSet<u64> = res.log.iter().filter(|r| r.dst == sock && r.idx >= res.steps_from_idx && r.pkt.as_ref().is_some_and(|p| p.conn_id == res.id_to_sock && p.ptype != refparse::ST_SYN)).map(|r| r.t_us).collect();
         for t in rx_times {
+            if loss_evidence_t.is_some_and(|l| t >= l) { break; }
             let written: u64 = writes.iter().filter(|w| w.1 <= t).map(|w| w.2 as u64).sum();
             let mut sent = 0u64;
             let mut seen = BTreeSet::new();
             let mut acked_rel = -1i32;
+            let mut sacked_rel: BTreeSet<i32> = BTreeSet::new();
             let mut lens: Vec<(i32, u64)> = vec![];
             for r in &res.log {
                 if r.t_us > t { break; }
@@ -189,6 +200,8 @@ pub fn oracle(case: &Case, res: &SpResult) -> (Option<(String, String)>, Vec<&'s
                 // acks delivered at a strictly earlier instant certainly count; the one at t may not have been processed before a racing write
                 if r.dst == sock && p.conn_id == res.id_to_sock && p.ptype != refparse::ST_SYN && r.t_us < t {
                     acked_rel = acked_rel.max(crate::model::seq::dist(p.ack, first));
+                    let a = crate::model::seq::dist(p.ack, first);
+                    for (i, b) in p.sack_bits().iter().enumerate() { if *b { sacked_rel.insert(a + 2 + i as i32); } }
                 }
             }
             // writes at the very instant t may have happened after the packet was processed
@@ -200,9 +213,12 @@ pub fn oracle(case: &Case, res: &SpResult) -> (Option<(String, String)>, Vec<&'s
                 // (the next cut may be a size probe: up to the link's largest payload)
                 let next = (written_before - sent).min(if probing { c.sock.max_payload() as u64 } else { mss });
                 let proven = lens.iter().filter(|(k, _)| *k <= acked_rel).map(|(_, l)| *l).max().unwrap_or(0).max(mss);
-                let real_probe_outstanding = lens.iter().any(|(k, l)| *k > acked_rel && *l > proven);
+                // (a probe the peer has selectively acknowledged is delivered: it holds nothing back any more)
+                let real_probe_outstanding = lens.iter().any(|(k, l)| *k > acked_rel && !sacked_rel.contains(k) && *l > proven);
+                if lens.iter().any(|(k, l)| *k > acked_rel && sacked_rel.contains(k) && *l > proven) { labels.insert("sacked_probe_behind_hole_at_event"); }
                 if real_probe_outstanding { labels.insert("probe_outstanding_at_event"); }
-                if outstanding + next <= 2 * mss + acked && !real_probe_outstanding {
+                // (the congestion window is kept as a float in segment units: two bytes of slack for its truncation)
+                if outstanding + next + 2 <= 2 * mss + acked && !real_probe_outstanding {
                     viol!("nagle-off-held-back", "Nagle is off: after the peer packet delivered at t={t} us was processed {} bytes written earlier stay untransmitted although only {} bytes are outstanding (slow-start allowance 2*{} + {} acked) and the window is huge", written_before - sent, outstanding, mss, acked);
                 }
                 labels.insert("cwnd_limited_at_event");
